@@ -30,6 +30,8 @@ def int_term(v):
 		return v.term
 	if isinstance(v, SBool):
 		return z3.If(v.term, z3.IntVal(1), z3.IntVal(0))
+	if z3.is_expr(v) and z3.is_int(v):
+		return v
 	raise Unsupported(f'not an integer: {v!r}')
 
 
